@@ -333,6 +333,43 @@ def run(ctx):
                     if got != want:
                         ctx.violation("property_fails", f"{nm} is not M*S mod m for n={n}, m={mod} with saturated rows (n*(m-1)^2 = {n * (mod - 1) ** 2})",
                                       {"oracle": "matrix_saturated", "n": n, "modulo": mod, "M": M if n <= 8 else "all m-1", "states": sts if n <= 8 else "all m-1 / mixed"}, True)
+    # sparse generators: the identity plus a few off-diagonal entries, CHAINED (an entry (i, j) whose source row j is itself modified), any modulus: a
+    # row-operation shortcut must read the ORIGINAL rows; and the array a generator is created from belongs to the caller (one array, several moduli)
+    for _ in range(ctx.budget(60, 600)):
+        n = rng.randint(2, 5)
+        mod = rng.choice([0, 0, 2, 3, 5, 7, 10, 2 ** 31 - 1])
+        M = [[1 if i == j else 0 for j in range(n)] for i in range(n)]
+        for _e in range(rng.randint(1, n)):
+            i, j = rng.sample(range(n), 2)
+            M[i][j] = rng.choice([1, -1, 2, -2, 3])
+        if rng.random() < 0.5:
+            # a chain below the diagonal: (i, j) with j < i and row j modified too
+            for i in range(1, n):
+                M[i][i - 1] = rng.choice([1, -1, 2])
+        arr = np.array(M, dtype=np.int64)
+        from cayleypy.cayley_graph_def import MatrixGenerator
+        gen = MatrixGenerator.create(arr, modulo=mod)
+        sts = [[rng.randint(-4, 9) if mod == 0 else rng.randrange(mod) for _ in range(n)] for _ in range(3)]
+        red = (lambda v: v % mod) if mod else G.wrap
+        want = [[red(sum(M[r][j] * s_[j] for j in range(n))) for r in range(n)] for s_ in sts]
+        got_np = [gen.apply(np.array(s_, dtype=np.int64).reshape(n, 1)).reshape(-1).tolist() for s_ in sts]
+        got_t = gen.apply_batch_torch(torch.tensor(sts, dtype=torch.int64).reshape(len(sts), n, 1)).reshape(len(sts), n).tolist()
+        ctx.count("sparse_unit_diagonal_cases")
+        ctx.case_seen(["sparse", M, mod], True)
+        for nm, got in (("MatrixGenerator.apply", got_np), ("MatrixGenerator.apply_batch_torch", got_t)):
+            if got != want:
+                ctx.violation("property_fails", f"{nm} is not M*S (mod {mod}) for a sparse unit-diagonal generator: {got} instead of {want}",
+                              {"oracle": "matrix_sparse", "M": M, "modulo": mod, "states": sts}, True)
+        if arr.tolist() != M:
+            ctx.violation("property_fails", "MatrixGenerator.create rewrote the array it was given", {"oracle": "matrix_create_alias", "M": M, "modulo": mod}, True)
+        mod2 = rng.choice([3, 5, 7, 11])
+        gen2 = MatrixGenerator.create(arr, modulo=mod2)
+        want2 = [[sum(M[r][j] * s_[j] for j in range(n)) % mod2 for r in range(n)] for s_ in sts]
+        got2 = [gen2.apply(np.array([v % mod2 for v in s_], dtype=np.int64).reshape(n, 1)).reshape(-1).tolist() for s_ in sts]
+        want2 = [[sum(M[r][j] * (s_[j] % mod2) for j in range(n)) % mod2 for r in range(n)] for s_ in sts]
+        if got2 != want2:
+            ctx.violation("property_fails", f"a second generator created from the SAME array with modulus {mod2} acts as {got2} instead of {want2}",
+                          {"oracle": "matrix_create_alias", "M": M, "modulo": mod, "modulo2": mod2, "states": sts}, True)
     chk = ("fun c => match c with (d, sts, nb, path, ap, auto) => let G := impl_of d in "
            "z_list2_eqb (get_neighbors G sts) nb "
            "&& list_eqb (result_eqb z_list_eqb) (map (fun s => apply_path (acts G) s path) sts) (map (fun s => Ok s) ap) "
